@@ -845,12 +845,15 @@ Proof.
   destruct (f (fst e)); cbn [map andb orb]; [rewrite lmem_cons, IH; reflexivity | exact IH].
 Qed.
 
-Lemma sarg_search_sound en tbl c ix q : index_ok tbl c ix -> sarg_query_ok q = true ->
+Definition not_bitmap_inverted (ix : sindex) (q : query) : bool :=
+  negb (ix_bitmap ix && match q with QRange lo hi => range_inverted lo hi | _ => false end).
+
+Lemma sarg_search_sound en tbl c ix q : index_ok tbl c ix -> sarg_query_ok q = true -> not_bitmap_inverted ix q = true ->
   exists t, sarg_search q ix = Ok (SExact t) /\ tm_wf t /\
     forall r, In r tbl -> rid r < two64 -> lmem (rfrag r) (ix_frags ix) = true ->
       tm_contains t (rid r) = qmatch en q (val r c).
 Proof.
-  intros [Hrows [He Hn]] Hq.
+  intros [Hrows [He Hn]] Hq Hbi.
   assert (Hrw : forall f, Forall (fun v => v < two64) (rows_where f ix)).
   { intro f. unfold rows_where. apply Forall_forall. intros x Hx. apply in_map_iff in Hx as [e [<- Hi]].
     apply filter_In in Hi as [Hi _]. exact (He e Hi). }
@@ -874,7 +877,8 @@ Proof.
   destruct q as [lo hi|vs|v| |f a]; cbn [sarg_query_ok] in Hq; try discriminate.
   - (* range *)
     assert (Er : sarg_rows (QRange lo hi) ix = Ok (rows_where (fun x => above lo x && below hi x) ix)).
-    { cbn [sarg_rows]. destruct lo, hi; try reflexivity. discriminate. }
+    { unfold not_bitmap_inverted in Hbi. apply negb_true_iff in Hbi. cbn [sarg_rows]. rewrite Hbi.
+      destruct lo, hi; try reflexivity. discriminate. }
     rewrite Er. eexists. split; [reflexivity|]. split; [apply tm_extend_wf, tm_wf_nil|].
     intros r Hr Hid Hc. rewrite tm_from_iter_contains by (try exact Hid; apply Hrw). rewrite (Hval _ r Hr Hc). reflexivity.
   - (* IN *)
@@ -1091,10 +1095,11 @@ Theorem exact_index_scan_eq_scan en info ixs tbl p :
   exact_info info -> fn_definite en -> table_ok info tbl -> indices_ok info ixs tbl ->
   Known_C19_not_over_nullable info tbl p = false ->
   Known_C19_range_bounds_swapped info tbl p = false ->
+  Known_C19_bitmap_inverted_range info ixs p = false ->
   sdepth p < MAX_DEPTH ->
   index_scan en info (exact_search ixs) (exact_cov ixs) tbl p = Ok (full_scan en tbl p).
 Proof.
-  intros Hex Hfn Htbl Hix Hk1 Hk2 Hd.
+  intros Hex Hfn Htbl Hix Hk1 Hk2 Hk3 Hd.
   apply (index_scan_eq_scan en info (exact_search ixs) (exact_cov ixs)
            (fun l x => match exact_search ixs l with Ok (SExact t) => tm_contains t x | _ => false end)).
   - exact (exact_info_parsers_ok info Hex).
@@ -1105,7 +1110,14 @@ Proof.
     destruct (visit_node_leaves info p 0 ie0 Ev sq Esq l Hl) as [ci [pr [Hi [Hin Hpr]]]].
     pose proof (Hex _ _ _ Hi Hin) as Epr. cbn [snd] in Epr. subst pr. destruct Hpr as [_ Hq].
     destruct (Hix _ _ _ _ Hi Hin) as [ix [Eix Hok]].
-    destruct (sarg_search_sound en tbl (l_col l) ix (l_query l) Hok Hq) as [t [Es [Hw Hrows]]].
+    assert (Hbi : not_bitmap_inverted ix (l_query l) = true).
+    { unfold Known_C19_bitmap_inverted_range, apply_scalar_indices in Hk3. rewrite Ev, Esq in Hk3.
+      unfold not_bitmap_inverted. apply negb_true_iff. apply not_true_is_false. intro Hb.
+      assert (X : existsb (leaf_bitmap_inverted ixs) (s_leaves sq) = true).
+      { apply existsb_exists. exists l. split; [exact Hl|]. unfold leaf_bitmap_inverted. rewrite Eix.
+        destruct (l_query l); try (rewrite andb_false_r in Hb; discriminate Hb). exact Hb. }
+      congruence. }
+    destruct (sarg_search_sound en tbl (l_col l) ix (l_query l) Hok Hq Hbi) as [t [Es [Hw Hrows]]].
     unfold leaf_ok, leaf_answers, exact_search, exact_cov. rewrite Eix, Es. split.
     + exists (SExact t). split; [reflexivity|]. split; [exact Hw|]. cbn [leaf_sound]. reflexivity.
     + intros r Hr Hc. apply Hrows; [exact Hr | exact (proj2 (Htbl r Hr)) | exact Hc].
@@ -1157,8 +1169,8 @@ Proof.
 Qed.
 
 (* build_index produces an index in step with the table *)
-Lemma build_index_ok tbl c frags : NoDup (map rid tbl) -> (forall r, In r tbl -> rid r < two64) ->
-  index_ok tbl c (build_index c frags tbl).
+Lemma build_index_ok bm tbl c frags : NoDup (map rid tbl) -> (forall r, In r tbl -> rid r < two64) ->
+  index_ok tbl c (build_index bm c frags tbl).
 Proof.
   intros Hnd Hlt. unfold index_ok, build_index. cbn [ix_frags ix_entries ix_nulls].
   assert (Huniq : forall r r', In r tbl -> In r' tbl -> rid r = rid r' -> r = r').
